@@ -13,6 +13,7 @@ out=$(mktemp -d /tmp/mutout.XXXXXX)
 rc_all=0
 for id in ${ids//,/ }; do
   VERIF_REPO="$scratch" VERIF_OUTROOT="$out" "$here/check" "$id" "$tier" > "$out/$id.stdout" 2> "$out/$id.stderr"; rc=$?
+  if [ $rc -eq 1 ] && [ -n "${FIRST:-}" ]; then echo "CAUGHT $id $(basename $(dirname "$patch"))/$(basename "$patch") : $(grep -m1 -E 'failed after|panic after|--- FAIL|reference|want' "$out/$id.stderr" | cut -c1-200)"; break; fi
   if [ $rc -eq 1 ]; then echo "CAUGHT $id $(basename $(dirname "$patch"))/$(basename "$patch") : $(grep -m1 -E 'failed after|panic after|--- FAIL|reference|want' "$out/$id.stderr" | cut -c1-200)";
   elif [ $rc -eq 0 ]; then echo "MISSED $id $patch"; rc_all=1;
   else echo "INFRA($rc) $id $patch: $(tail -5 "$out/$id.stderr" | tr '\n' ' ' | cut -c1-400)"; rc_all=2; fi
